@@ -111,16 +111,16 @@ def Exec.qanswered : Exec → Prop
   | .done _ st _ _ _ => st ≠ .pending
   | .panicked _ _ => True
 
-/-! #### admission never answers `pending` -/
+/-! #### admission never answers `pending` (`overflow`: the worker panicked in `is_space_available_for` and answers nothing) -/
 
 theorem createLoop_status_ne_pending {t : TinyLFU} {size : Nat} {w : Int} {incEst : Nat} :
     ∀ (fuel : Nat) (a : Adm) (sample : List SKey) (o : Oracle) (ev : List Evicted) (pp : List SKey) (r : LoopResult),
-      createLoop t size w incEst fuel a sample o ev pp = .ok r → r.status ≠ .pending := by
+      createLoop t size w incEst fuel a sample o ev pp = .ok r → r.overflow = false → r.status ≠ .pending := by
   intro fuel
   induction fuel with
   | zero => intro a sample o ev pp r h; simp [createLoop] at h
   | succ fuel ih =>
-    intro a sample o ev pp r h
+    intro a sample o ev pp r h hov
     unfold createLoop at h
     split at h
     · simp only [Except.ok.injEq] at h; subst h; simp
@@ -137,15 +137,19 @@ theorem createLoop_status_ne_pending {t : TinyLFU} {size : Nat} {w : Int} {incEs
             · simp only [Except.ok.injEq] at h; subst h; simp
             · simp only [] at h
               split at h
-              · cases h
-              · exact ih _ _ _ _ _ _ h
+              · simp only [Except.ok.injEq] at h; subst h; simp at hov
+              · split at h
+                · cases h
+                · exact ih _ _ _ _ _ _ h hov
 
 theorem maybeAdd_status_ne_pending {t : TinyLFU} {size : Nat} {a : Adm} {id key hash : Nat} {w : Int} {o : Oracle}
-    {r : AdmResult} (h : maybeAdd t size a id key hash w o = .ok r) : r.status ≠ .pending := by
+    {r : AdmResult} (h : maybeAdd t size a id key hash w o = .ok r) (hov : r.overflow = false) : r.status ≠ .pending := by
   unfold maybeAdd at h
   split at h
   · simp only [Except.ok.injEq] at h; subst h; simp
   · split at h
+    · simp only [Except.ok.injEq] at h; subst h; simp at hov
+    split at h
     · simp only [Except.ok.injEq] at h; subst h; simp
     · split at h
       · cases h
@@ -155,7 +159,7 @@ theorem maybeAdd_status_ne_pending {t : TinyLFU} {size : Nat} {a : Adm} {id key 
           · cases h
           · rename_i r' hl
             simp only [Except.ok.injEq] at h; subst h
-            exact createLoop_status_ne_pending _ _ _ _ _ _ _ hl
+            exact createLoop_status_ne_pending _ _ _ _ _ _ _ hl hov
 
 theorem workerPut_qspec {s : State} {id hash : Nat} {w : Int} {k v : Nat} {ttl : Option Nat} {o o' : Oracle}
     {e : Exec} (h : workerPut s id hash w k v ttl o = .ok (e, o')) : QSame s e.qstate ∧ e.qanswered := by
@@ -167,12 +171,17 @@ theorem workerPut_qspec {s : State} {id hash : Nat} {w : Int} {k v : Nat} {ttl :
   · split at h
     · cases h
     · rename_i r hr
-      have hst := maybeAdd_status_ne_pending hr
       have h1 : QSame s (r.evicted.foldl applyEvict { s with adm := r.adm }) :=
         (QSame.of_eq (s := s) (s' := { s with adm := r.adm }) rfl rfl rfl rfl rfl rfl rfl).trans
           (qsame_foldl_applyEvict _ _)
       simp only [] at h
       generalize r.evicted.foldl applyEvict { s with adm := r.adm } = s1 at h h1
+      split at h
+      · simp only [Except.ok.injEq, Prod.mk.injEq] at h
+        obtain ⟨rfl, -⟩ := h
+        exact ⟨h1, trivial⟩
+      rename_i hov
+      have hst := maybeAdd_status_ne_pending hr (by simpa using hov)
       split at h
       · split at h
         · simp only [Except.ok.injEq, Prod.mk.injEq] at h
